@@ -13,11 +13,26 @@ package main
 // values.  The same clauses are evaluated directly on the implementation (Ctx.Fail).
 //
 //   naming     : Saver.ObserveEvent called in-process on harness-built archives (set sizes 0..40,
-//                both families), each case repeated in fresh directories.
+//                both families), each case repeated in fresh directories.  ONE Saver observes every
+//                run of a case and writes them into ONE directory, as the scenario runner does:
+//                single runs (r of R) and ALL runs of scenarios of 2, 3, 5 runs (a few of 11, 12).
+//                Clean and adversarial scenario names alike (`..`, `/`, parentheses, newlines,
+//                `As-Is`, `Solution`; the audit's witnesses `trial (1/1)`, `As-Is baseline`,
+//                `Best Solution` x 3 runs first); left out are only names the filesystem cannot
+//                carry (fsCanCarry).  Nothing may appear beside the output directory.
 //   saved-runs : whole scenarios built from generated TOML text by crem's own config interpreters
-//                and run by Scenario.Run() in CHILD processes (a panic inside a run kills the
-//                process), both annealer families over the catchment model with the shipped CSV
-//                data, runs 1-4, CSV/JSON, Summary/Detail, each configuration repeated >= 8 times.
+//                and run by Scenario.Run() in CHILD processes (each in a scratch working directory),
+//                both annealer families over the catchment model with the shipped CSV data, runs 1-4
+//                (thorough: 10, 11, 100), CSV/JSON, Summary/Detail, each configuration repeated >= 8
+//                times; adversarial names (3 runs of `Best Solution`, `Run 3/4 test`, ...); scenarios
+//                with a Maximum<Variable> limit on each of the six variables (C03's output side:
+//                every written row except the As-Is row respects the limit); scenarios that leave
+//                out OutputType / OutputLevel / OutputPath.
+//
+// Direct failures are reported for every scenario name and every repetition (the round-3 repairs make
+// the clauses hold for every name), identical ones once per case (failSink).  C11's output side is
+// evaluated on every written detail file: total = sum of the per-planning-unit figures (within half a
+// grid unit, and exactly as whole numbers of grid units) and TN = PN + DN per catchment and per unit.
 
 import (
 	"encoding/json"
@@ -30,6 +45,7 @@ import (
 	"strconv"
 	"strings"
 	"sync"
+	"syscall"
 	"time"
 
 	explorerdata "github.com/LindsayBradford/crem/cmd/cremexplorer/config/data"
@@ -64,6 +80,11 @@ type saveCase struct {
 	fam, otype, level, name string
 	R                       int
 	runs                    []runTruth
+	// the scenario's limit (saved-runs only): Maximum<varNames[limVar]> = limit.  It does not change the `save` line:
+	// the model predicts names and rows from the recorded encodings.
+	limOn  bool
+	limVar int
+	limit  float64
 }
 
 func (sc saveCase) ext() string { return strings.ToLower(sc.otype) }
@@ -204,9 +225,39 @@ type saveOutcome struct {
 	setNames     []string
 }
 
+// failSink reports the direct failures of ONE case (one finished scenario, saved / executed several times).  Every
+// repetition and every scenario name is reported - since the round-3 repairs the clauses hold for every name - but
+// an identical failure (same signature, same detail) is reported once per case, so that one defect prints once.
+// The histogram keeps the streams apart (`clean save` / `adv save` / `saved-runs`).
+type failSink struct {
+	c       *Ctx
+	stream  string
+	seen    map[string]bool
+	context []string // comment lines ("# ...") put in front of every failing input
+}
+
+func newFailSink(c *Ctx, stream string) *failSink {
+	return &failSink{c: c, stream: stream, seen: map[string]bool{}}
+}
+
+func (fs *failSink) fail(pred, sig, detail string, ops []string) {
+	key := sig + "\x00" + detail
+	if fs.seen[key] {
+		fs.c.Stat(fs.stream + ": direct failure seen again in another repetition of the case (reported once): " + sig)
+		return
+	}
+	fs.seen[key] = true
+	if len(fs.context) > 0 {
+		ops = append(append([]string(nil), fs.context...), ops...)
+	}
+	fs.c.Fail(pred, sig, detail, ops)
+	fs.c.Stat(fs.stream + ": direct failure " + sig)
+}
+
 // examineSaved parses `dir`, evaluates the property's clauses directly and returns the protocol line.
 // `died` = the writing execution panicked (in-process: recovered; child: process died), with its message.
-func examineSaved(c *Ctx, nm *namer, ref *Ref, sc saveCase, dir string, died string, report bool) saveOutcome {
+// Direct failures go to `sink` with the case's `save` line as the failing input.
+func examineSaved(c *Ctx, nm *namer, ref *Ref, sc saveCase, dir string, died string, sink *failSink) saveOutcome {
 	vnames, vidx := sortedVars()
 	nAct := ref.cm.n()
 	ents, _ := os.ReadDir(dir)
@@ -230,14 +281,11 @@ func examineSaved(c *Ctx, nm *namer, ref *Ref, sc saveCase, dir string, died str
 	fmt.Fprintf(&op, " %d", len(sc.runs))
 	var contents []string
 	out := saveOutcome{}
-	fail := func(pred, sig, detail string) {
-		if report {
-			c.Fail(pred, sig, detail, nil)
-			c.Stat("save: direct failure " + sig)
-		} else {
-			c.Stat("save: clause false in a repetition or under an adversarial name (not reported): " + sig)
-		}
-	}
+	// failures are collected and sent off with the complete `save` line, which is only known at the end
+	type pendingFailure struct{ pred, sig, detail string }
+	var pending []pendingFailure
+	fail := func(pred, sig, detail string) { pending = append(pending, pendingFailure{pred, sig, detail}) }
+	claimedBy := map[string]int{} // summary file -> the run it was attributed to
 
 	for _, run := range sc.runs {
 		rid := realRunId(sc.name, run.R, sc.R)
@@ -270,6 +318,16 @@ func examineSaved(c *Ctx, nm *namer, ref *Ref, sc saveCase, dir string, died str
 		if died == "" && nFound != 1 {
 			fail("C12: for every finished run the explorer writes one summary", "saved:summary-count",
 				fmt.Sprintf("run %q: %d summary files among the candidates %q; directory: %q", rid, nFound, uniq(candidates), listing))
+		}
+		if file != "" {
+			// one summary PER run: a file that two runs of the scenario take for theirs was written twice, the later
+			// save overwrote the earlier one
+			if other, shared := claimedBy[file]; shared && died == "" {
+				fail("C12: for every finished run the explorer writes one summary (the runs of one scenario do not share a summary file)", "saved:summary-count",
+					fmt.Sprintf("runs %d and %d of scenario %q (%d runs) both have %q as their summary file: one save overwrote the other; directory: %q", other, run.R, sc.name, sc.R, file, listing))
+			} else if !shared {
+				claimedBy[file] = run.R
+			}
 		}
 		// the JSON set name is derived from ANOTHER, independent iteration of the same map
 		setIdx := "none"
@@ -374,6 +432,42 @@ func examineSaved(c *Ctx, nm *namer, ref *Ref, sc saveCase, dir string, died str
 				}
 			}
 		}
+		// ---- C03, output side: under a limit on one variable, every solution written respects it.  Row 0, the As-Is row,
+		// is EXCLUDED: it is not a solution of the run but the unoptimised reference state (no action active) that the
+		// Saver writes in front of every summary for comparison; under a pollutant limit it exceeds the limit by design
+		// (the limit asks for less than the untreated catchment produces) - that is counted as an observation and not
+		// raised.  Every OTHER row (also a member whose encoding happens to be all-inactive) is held to the limit, both
+		// in the exact value of a fresh model at the row's encoding and in the written cell at reporting precision.
+		if sc.limOn {
+			limName := varNames[sc.limVar]
+			col := -1
+			for k, n := range vnames {
+				if n == limName {
+					col = k
+				}
+			}
+			for i, row := range ps.rows {
+				bits, err := decodeBits(row.actions, nAct)
+				if err != nil || len(row.vals) != len(vnames) {
+					continue // reported by the clauses above
+				}
+				exact, cell := ref.at(bits).totals[sc.limVar], row.vals[col]
+				if i == 0 {
+					c.Stat(fmt.Sprintf("saved-runs: As-Is rows seen under a limit variable=%s", limName))
+					if exact > sc.limit {
+						c.Stat(fmt.Sprintf("saved-runs: As-Is row exceeds the scenario's limit (the reference state, excluded by design) variable=%s", limName))
+					}
+					continue
+				}
+				c.Stat(fmt.Sprintf("saved-runs: limited rows checked variable=%s family=%s", limName, sc.fam))
+				if exact > sc.limit || cell > sc.limit+1e-9 {
+					fail("C03: every solution written to the output files respects the scenario's limit: in every written summary the limited variable of every row except the As-Is row is <= the limit (the As-Is row is the unoptimised reference state with no action active; under a pollutant limit it exceeds the limit by design and is written for comparison only)",
+						"saved:row-exceeds-limit",
+						fmt.Sprintf("%s row %d (%s, actions %s): %s = %v in the file, a fresh model at that encoding gives %v; the scenario was configured with %s = %v",
+							file, i, row.label, row.actions, limName, cell, exact, varMaxKey[sc.limVar], sc.limit))
+				}
+			}
+		}
 		// ---- detail files: totals re-summed from the per-planning-unit values; action flags
 		if sc.level == "Detail" {
 			for i, k := range keys {
@@ -410,6 +504,9 @@ func examineSaved(c *Ctx, nm *namer, ref *Ref, sc saveCase, dir string, died str
 		}
 	}
 	out.op, out.res = op.String(), res.String()
+	for _, pf := range pending {
+		sink.fail(pf.pred, pf.sig, pf.detail, []string{out.op})
+	}
 	return out
 }
 
@@ -432,36 +529,112 @@ func detailNames(sc saveCase, safeId string) []string {
 	return []string{safeId + ".json"}
 }
 
-// checkDetail: C11's output side (each total = sum of its per-planning-unit values), totals equal the
-// fresh model's, active actions equal the encoding's bits.
+// detailVar: one decision variable of a written detail file: its total and its per-planning-unit figures (keyed by
+// the planning unit's id as written; a unit that is not listed has the value zero).
+type detailVar struct {
+	name  string
+	total float64
+	units map[string]float64
+}
+
+// gridUnits converts a written figure to a whole number of grid units (10^-prec); ok = it is within 1e-6 grid units of one.
+func gridUnits(v float64, prec int) (int64, bool) {
+	scaled := v * math.Pow10(prec)
+	n := math.Round(scaled)
+	return int64(n), math.Abs(scaled-n) <= 1e-6+math.Abs(n)*1e-12 && !math.IsNaN(scaled) && !math.IsInf(scaled, 0)
+}
+
+// checkDetail: the detail files of one solution.  C12: totals equal the fresh model's, active actions equal the
+// encoding's bits.  C11's output side: each total equals the sum of its per-planning-unit figures, and
+// TotalNitrogen = ParticulateNitrogen + DissolvedNitrogen for the catchment and for every planning unit.
 func checkDetail(c *Ctx, ref *Ref, sc saveCase, dir, sid string, have map[string]bool, bits []bool, fresh [6]float64,
 	vnames []string, vidx []int, fail func(pred, sig, detail string)) {
 	prec := func(k int) int { return varPrec[vidx[k]] }
-	checkVar := func(file, name string, total float64, units []float64) {
-		k := -1
+	indexOf := func(name string) int {
 		for i, n := range vnames {
 			if n == name {
-				k = i
+				return i
 			}
 		}
-		if k < 0 {
-			fail("C12: detail files list the model's decision variables", "saved:detail-unknown-variable", file+": "+name)
-			return
+		return -1
+	}
+	checkVars := func(file string, vars []detailVar) {
+		byName := map[string]detailVar{}
+		for _, dv := range vars {
+			k := indexOf(dv.name)
+			if k < 0 {
+				fail("C12: detail files list the model's decision variables", "saved:detail-unknown-variable", file+": "+dv.name)
+				continue
+			}
+			byName[dv.name] = dv
+			p := prec(k)
+			tol := 0.5*math.Pow10(-p) + 1e-9
+			if math.Abs(dv.total-fresh[vidx[k]]) > tol {
+				fail("C12: saved values are those of the model evaluated at the action encoding", "saved:detail-values-differ-from-fresh-model",
+					fmt.Sprintf("%s: %s = %v, a fresh model gives %v", file, dv.name, dv.total, fresh[vidx[k]]))
+			}
+			sum := 0.0
+			for _, u := range dv.units {
+				sum += u
+			}
+			if math.Abs(sum-dv.total) > tol {
+				fail("C11: totals in the saved files equal the sum of the per-planning-unit values (output side)", "saved:total-differs-from-sum-of-units",
+					fmt.Sprintf("%s: %s total %v, per-planning-unit values sum to %v", file, dv.name, dv.total, sum))
+			}
+			c.Stat("save: detail variable re-summed")
+			// the re-sum at the grid: every figure is written at the variable's reporting precision, i.e. it is a whole
+			// number of grid units (10^-3 for the pollutant variables, 10^-2 for the costs)
+			totalUnits, totalOnGrid := gridUnits(dv.total, p)
+			unitSum, unitsOnGrid := int64(0), true
+			for _, u := range dv.units {
+				g, on := gridUnits(u, p)
+				unitSum += g
+				unitsOnGrid = unitsOnGrid && on
+			}
+			if !totalOnGrid || !unitsOnGrid {
+				c.Stat("save: detail variable with a figure off its reporting grid")
+				fail("C11: the figures of a saved detail file are written at the variable's reporting precision", "saved:detail-figure-off-grid",
+					fmt.Sprintf("%s: %s: total on the 10^-%d grid: %v, every per-planning-unit figure on it: %v", file, dv.name, p, totalOnGrid, unitsOnGrid))
+				continue
+			}
+			c.Stat("save: detail variable re-summed exactly at its reporting grid")
+			if unitSum != totalUnits {
+				fail("C11: totals in the saved files equal the sum of the per-planning-unit values EXACTLY at the reporting grid: every figure is a whole number of grid units (10^-3 pollutants, 10^-2 costs) and the whole numbers add up (output side)",
+					"saved:total-differs-from-sum-of-units-at-grid",
+					fmt.Sprintf("%s: %s total %v = %d grid units of 10^-%d, its %d per-planning-unit figures sum to %d grid units", file, dv.name, dv.total, totalUnits, p, len(dv.units), unitSum))
+			}
 		}
-		tol := 0.5*math.Pow10(-prec(k)) + 1e-9
-		if math.Abs(total-fresh[vidx[k]]) > tol {
-			fail("C12: saved values are those of the model evaluated at the action encoding", "saved:detail-values-differ-from-fresh-model",
-				fmt.Sprintf("%s: %s = %v, a fresh model gives %v", file, name, total, fresh[vidx[k]]))
+		// TotalNitrogen = ParticulateNitrogen + DissolvedNitrogen, for the catchment total and for every planning unit,
+		// exactly at the 10^-3 grid all three are written on (a unit a variable does not list has the value zero)
+		tn, okT := byName[varNames[3]]
+		pn, okP := byName[varNames[1]]
+		dn, okD := byName[varNames[2]]
+		if okT && okP && okD {
+			predTN := "C11: TotalNitrogen = ParticulateNitrogen + DissolvedNitrogen for the catchment and for every planning unit in every saved detail file, exactly at the 10^-3 reporting grid (output side)"
+			grid := func(v float64) int64 { g, _ := gridUnits(v, 3); return g } // off-grid figures were reported above
+			if t, pp, d := grid(tn.total), grid(pn.total), grid(dn.total); t != pp+d {
+				fail(predTN, "saved:tn-differs-from-pn-plus-dn",
+					fmt.Sprintf("%s: catchment totals: TotalNitrogen %v, ParticulateNitrogen %v + DissolvedNitrogen %v (%d vs %d + %d grid units)", file, tn.total, pn.total, dn.total, t, pp, d))
+			}
+			c.Stat("save: TN = PN + DN checked on a catchment total")
+			pus := map[string]bool{}
+			for _, m := range []map[string]float64{tn.units, pn.units, dn.units} {
+				for pu := range m {
+					pus[pu] = true
+				}
+			}
+			for _, pu := range sortedKeys(pus) {
+				if t, pp, d := grid(tn.units[pu]), grid(pn.units[pu]), grid(dn.units[pu]); t != pp+d {
+					fail(predTN, "saved:tn-differs-from-pn-plus-dn",
+						fmt.Sprintf("%s: planning unit %s: TotalNitrogen %v, ParticulateNitrogen %v + DissolvedNitrogen %v (%d vs %d + %d grid units)", file, pu, tn.units[pu], pn.units[pu], dn.units[pu], t, pp, d))
+					break
+				}
+				c.Stat("save: TN = PN + DN checked on a planning unit")
+			}
+		} else if len(vars) > 0 {
+			fail("C11: TotalNitrogen = ParticulateNitrogen + DissolvedNitrogen in every saved detail file (output side)", "saved:detail-nitrogen-variable-missing",
+				fmt.Sprintf("%s lists TotalNitrogen: %v, ParticulateNitrogen: %v, DissolvedNitrogen: %v", file, okT, okP, okD))
 		}
-		sum := 0.0
-		for _, u := range units {
-			sum += u
-		}
-		if math.Abs(sum-total) > tol {
-			fail("C11: totals in the saved files equal the sum of the per-planning-unit values (output side)", "saved:total-differs-from-sum-of-units",
-				fmt.Sprintf("%s: %s total %v, per-planning-unit values sum to %v", file, name, total, sum))
-		}
-		c.Stat("save: detail variable re-summed")
 	}
 	acts := ref.cm.m.ManagementActions()
 	checkActive := func(file string, active map[string]bool) {
@@ -479,19 +652,30 @@ func checkDetail(c *Ctx, ref *Ref, sc saveCase, dir, sid string, have map[string
 		if have[f] {
 			raw, _ := os.ReadFile(filepath.Join(dir, f))
 			lines := strings.Split(strings.TrimSuffix(string(raw), "\n"), "\n")
+			head := strings.Split(lines[0], ", ")
+			var vars []detailVar
 			for _, l := range lines[1:] {
 				fs := strings.Split(l, ", ")
 				if len(fs) < 3 {
 					continue
 				}
-				total, _ := strconv.ParseFloat(fs[1], 64)
-				var units []float64
-				for _, t := range fs[3:] {
-					u, _ := strconv.ParseFloat(t, 64)
-					units = append(units, u)
+				dv := detailVar{name: fs[0], units: map[string]float64{}}
+				dv.total, _ = strconv.ParseFloat(fs[1], 64)
+				for j := 3; j < len(fs); j++ {
+					u, err := strconv.ParseFloat(fs[j], 64)
+					if err != nil {
+						u = math.NaN()
+					}
+					// the column heading reads <planning-unit heading>-<id>
+					pu := strconv.Itoa(j)
+					if j < len(head) {
+						pu = head[j][strings.LastIndex(head[j], "-")+1:]
+					}
+					dv.units[pu] = u
 				}
-				checkVar(f, fs[0], total, units)
+				vars = append(vars, dv)
 			}
+			checkVars(f, vars)
 		}
 		f = sid + "-ManagementActions.csv"
 		if have[f] {
@@ -540,22 +724,31 @@ func checkDetail(c *Ctx, ref *Ref, sc saveCase, dir, sid string, have map[string
 	if len(dvs) != 6 {
 		fail("C12: detail files list the model's decision variables", "saved:detail-variable-count", fmt.Sprintf("%s lists %d decision variables", f, len(dvs)))
 	}
+	var vars []detailVar
 	for _, d := range dvs {
 		dv, _ := d.(map[string]interface{})
 		name, _ := dv["Name"].(string)
-		var units []float64
+		out := detailVar{name: name, total: num(dv["Value"]), units: map[string]float64{}}
 		for k, v := range dv {
 			if strings.HasPrefix(k, "ValuePer") {
 				items, _ := v.([]interface{})
-				for _, it := range items {
+				for n, it := range items {
 					if m, ok := it.(map[string]interface{}); ok {
-						units = append(units, num(m["Value"]))
+						// {"<planning-unit heading>": "<id>", "Value": "<figure>"}
+						pu := "#" + strconv.Itoa(n)
+						for mk, mv := range m {
+							if mk != "Value" {
+								pu = fmt.Sprint(mv)
+							}
+						}
+						out.units[pu] = num(m["Value"])
 					}
 				}
 			}
 		}
-		checkVar(f, name, num(dv["Value"]), units)
+		vars = append(vars, out)
 	}
+	checkVars(f, vars)
 	active := map[string]bool{}
 	if m, ok := sol["ActiveManagementActions"].(map[string]interface{}); ok {
 		for pu, ts := range m {
@@ -590,14 +783,20 @@ func newSaveRig(ds string) (*saveRig, error) {
 	return &saveRig{ref: ref, model: m, ds: ds}, nil
 }
 
-// runSaver performs what one finished run makes the Saver do; returns the panic text ("" = none).
-func (rig *saveRig) runSaver(sc saveCase, run runTruth, dir string) string {
+// newSaver builds the ONE Saver of a scenario as the scenario runner does: it observes every run of the scenario
+// and writes them all into one directory.
+func (rig *saveRig) newSaver(sc saveCase, dir string) *scenario.Saver {
 	saver := scenario.NewSaver().
 		WithOutputType(encoding.OutputType(sc.otype)).
 		WithOutputPath(dir).
 		WithOutputLevel(scenario.OutputLevel(sc.level)).
 		WithLogHandler(loggers.NewNullLogger())
 	saver.SetDecompressionModel(rig.model)
+	return saver
+}
+
+// observeFinish performs what one finished run makes the scenario's Saver do; returns the panic text ("" = none).
+func (rig *saveRig) observeFinish(saver *scenario.Saver, sc saveCase, run runTruth) string {
 	nAct := rig.ref.cm.n()
 	ev := observer.NewEvent(observer.FinishedAnnealing)
 	if sc.fam == "single" {
@@ -644,23 +843,37 @@ func randomMembers(r *Rng, nAct, n int) []string {
 	return out
 }
 
-// oneSaveCase runs the Saver `reps` times on the same finished run (fresh directory each time),
-// emits the distinct protocol lines and checks that names do not vary between repetitions.
+// oneSaveCase lets ONE Saver observe every run of the case (as the scenario runner does: one saver, one directory, all
+// runs), `reps` times in fresh directories; emits the distinct protocol lines and checks that names do not vary
+// between repetitions.  Direct failures are reported for every name and every repetition (de-duplicated per case).
 func oneSaveCase(c *Ctx, nm *namer, rig *saveRig, sc saveCase, reps int, clean bool) {
+	stream := "clean save"
+	if !clean {
+		stream = "adv save"
+	}
+	sink := newFailSink(c, stream)
 	lines := map[string]string{}
 	files, sets := map[string]bool{}, map[string]bool{}
 	anyDied, anyOk := "", false
 	for rep := 0; rep < reps; rep++ {
-		dir, err := os.MkdirTemp(c.Out, "save")
+		// the output directory is the only entry of a fresh parent: anything else that appears there was written
+		// outside the directory the Saver was given
+		parent, err := os.MkdirTemp(c.Out, "save")
 		must(err)
+		dir := filepath.Join(parent, "out")
 		died := ""
+		saver := rig.newSaver(sc, dir)
 		for _, run := range sc.runs {
-			if p := rig.runSaver(sc, run, dir); p != "" {
+			if p := rig.observeFinish(saver, sc, run); p != "" {
 				died = p
 				break
 			}
 		}
-		o := examineSaved(c, nm, rig.ref, sc, dir, died, clean && rep == 0)
+		o := examineSaved(c, nm, rig.ref, sc, dir, died, sink)
+		if strays := entriesBeside(parent, "out"); len(strays) > 0 {
+			sink.fail("C12: the summaries (and detail files) are written into the configured output directory", "saved:file-outside-directory",
+				fmt.Sprintf("scenario %q: the Saver was given the directory <parent>/out and left %q in <parent>", sc.name, strays), []string{o.op})
+		}
 		lines[o.op] = o.res
 		if died != "" {
 			anyDied = died
@@ -669,7 +882,7 @@ func oneSaveCase(c *Ctx, nm *namer, rig *saveRig, sc saveCase, reps int, clean b
 			files[strings.Join(o.summaryFiles, ",")] = true
 			sets[strings.Join(o.setNames, ",")] = true
 		}
-		os.RemoveAll(dir)
+		os.RemoveAll(parent)
 	}
 	var ops []string
 	for op := range lines {
@@ -680,18 +893,17 @@ func oneSaveCase(c *Ctx, nm *namer, rig *saveRig, sc saveCase, reps int, clean b
 		c.Op(op, lines[op])
 		c.Nontrivial(op)
 	}
-	stream := "clean"
-	if !clean {
-		stream = "adv"
+	maxSet := 0
+	for _, run := range sc.runs {
+		if len(run.Members) > maxSet {
+			maxSet = len(run.Members)
+		}
 	}
-	c.Stat(fmt.Sprintf("%s save family=%s type=%s level=%s runs=%s setsize=%s", stream, sc.fam, sc.otype, sc.level, nbucket(sc.R), nbucket(len(sc.runs[0].Members))))
-	c.Stat(fmt.Sprintf("%s save: distinct outcomes of one run over %d repetitions = %d", stream, reps, len(lines)))
-	if !clean {
-		return
-	}
+	c.Stat(fmt.Sprintf("%s family=%s type=%s level=%s runs=%s saved-through-one-saver=%d setsize=%s", stream, sc.fam, sc.otype, sc.level, nbucket(sc.R), len(sc.runs), nbucket(maxSet)))
+	c.Stat(fmt.Sprintf("%s: distinct outcomes of one case over %d repetitions = %d", stream, reps, len(lines)))
 	if len(files) > 1 || len(sets) > 1 {
 		c.Fail("C12: file name and set name are a deterministic function of scenario name, run number and output type", sigMapOrder,
-			fmt.Sprintf("the same finished run %q (%s, %s, %d members) saved %d times: summary files %q, set names %q", sc.runs[0].Id, sc.fam, sc.otype, len(sc.runs[0].Members), reps, sortedKeys(files), sortedKeys(sets)), ops)
+			fmt.Sprintf("the same finished run(s) of %q (%s, %s, %d members in the first) saved %d times: summary files %q, set names %q", sc.runs[0].Id, sc.fam, sc.otype, len(sc.runs[0].Members), reps, sortedKeys(files), sortedKeys(sets)), ops)
 	}
 	if anyDied != "" {
 		sig := "saved:writing-panicked"
@@ -699,8 +911,48 @@ func oneSaveCase(c *Ctx, nm *namer, rig *saveRig, sc saveCase, reps int, clean b
 			sig = sigJsonPanic
 		}
 		c.Fail("C12: writing never fails for some executions and succeeds for others of the same run", sig,
-			fmt.Sprintf("saving the finished run %q (%s, %s, %d members) panicked (%s) in some of %d executions; other executions succeeded: %v", sc.runs[0].Id, sc.fam, sc.otype, len(sc.runs[0].Members), clip(anyDied, 120), reps, anyOk), ops)
+			fmt.Sprintf("saving the finished run(s) of %q (%s, %s, %d members in the first) panicked (%s) in some of %d executions; other executions succeeded: %v", sc.runs[0].Id, sc.fam, sc.otype, len(sc.runs[0].Members), clip(anyDied, 120), reps, anyOk), ops)
 	}
+}
+
+// entriesBeside lists what `parent` holds apart from `keep`.
+func entriesBeside(parent string, keep ...string) []string {
+	ents, _ := os.ReadDir(parent)
+	var out []string
+	for _, e := range ents {
+		kept := false
+		for _, k := range keep {
+			if e.Name() == k {
+				kept = true
+			}
+		}
+		if !kept {
+			out = append(out, e.Name())
+		}
+	}
+	return out
+}
+
+// fsCanCarry: the only scenario names left out of the `save` lines are those the FILESYSTEM cannot carry, whatever
+// the naming functions do: a NUL byte (no file name may hold one) and names that lead to a file name of more than
+// 255 bytes (NAME_MAX; a '/' of the scenario name becomes the four bytes `_of_`).  The encoders report such an
+// open error to the log and carry on, so that the summary would simply be missing.  Every other name - `..`, `/`,
+// parentheses, newlines, `As-Is`, `Solution` - is exercised: the naming functions replace every '/', so a file
+// name is always a single path component ending in `-Summary.<type>`, `-ManagementActions.csv`,
+// `-NameMappedVariables.csv` or `).json` and cannot leave the directory (checked directly: saved:file-outside-directory).
+func fsCanCarry(nm *namer, sc saveCase) bool {
+	if strings.ContainsRune(sc.name, 0) {
+		return false
+	}
+	for _, run := range sc.runs {
+		for _, k := range nm.realKeys(sc.fam, realRunId(sc.name, run.R, sc.R), len(run.Members)) {
+			one := solutionsetSummaryOf(k)
+			if len(one.FileNameSafeId()+"-Summary.json") > 255 || len((&solution.Solution{Id: k}).FileNameSafeId()+"-NameMappedVariables.csv") > 255 {
+				return false
+			}
+		}
+	}
+	return true
 }
 
 func saveCases(c *Ctx, nm *namer, r *Rng) {
@@ -716,18 +968,47 @@ func saveCases(c *Ctx, nm *namer, r *Rng) {
 		c.Fail("correspondence", "naming:no-dataset", "no shipped dataset could be loaded", nil)
 		return
 	}
-	mk := func(rig *saveRig, fam, otype, level, name string, rr, R, n int) saveCase {
-		if fam == "single" {
-			n = 1
+	// mkRuns: the runs `rs` of a scenario of R runs, each with its own random solution set of size sizeOf(run)
+	mkRuns := func(rig *saveRig, fam, otype, level, name string, rs []int, R int, sizeOf func(rr int) int) saveCase {
+		sc := saveCase{fam: fam, otype: otype, level: level, name: name, R: R}
+		for _, rr := range rs {
+			n := sizeOf(rr)
+			if fam == "single" {
+				n = 1
+			}
+			sc.runs = append(sc.runs, runTruth{R: rr, Id: realRunId(name, rr, R), Members: randomMembers(r, rig.ref.cm.n(), n)})
 		}
-		run := runTruth{R: rr, Id: realRunId(name, rr, R), Members: randomMembers(r, rig.ref.cm.n(), n)}
-		return saveCase{fam: fam, otype: otype, level: level, name: name, R: R, runs: []runTruth{run}}
+		return sc
+	}
+	mk := func(rig *saveRig, fam, otype, level, name string, rr, R, n int) saveCase {
+		return mkRuns(rig, fam, otype, level, name, []int{rr}, R, func(int) int { return n })
+	}
+	allRuns := func(R int) []int {
+		out := make([]int, R)
+		for i := range out {
+			out[i] = i + 1
+		}
+		return out
 	}
 	reps := c.N(12, 32)
+	fewReps := c.N(4, 8)
+	types := []string{"CSV", "JSON"}
+	levels := []string{"Summary", "Detail"}
+	// ---- the audit's three witnesses, fixed, first, in every tier (see suiteNaming)
+	for _, otype := range types {
+		rig := rigs[0]
+		oneSaveCase(c, nm, rig, mk(rig, "single", otype, "Summary", "trial (1/1)", 1, 1, 1), fewReps, false)
+		oneSaveCase(c, nm, rig, mk(rig, "multi", otype, "Summary", "As-Is baseline", 1, 1, 3), fewReps, false)
+		for _, level := range levels {
+			// three runs of `Best Solution` through one Saver into one directory: three summaries
+			oneSaveCase(c, nm, rig, mkRuns(rig, "multi", otype, level, "Best Solution", allRuns(3), 3, func(rr int) int { return []int{2, 0, 3}[rr-1] }), fewReps, false)
+			oneSaveCase(c, nm, rig, mkRuns(rig, "single", otype, level, "Best Solution", allRuns(3), 3, func(int) int { return 1 }), fewReps, false)
+		}
+	}
 	// systematic: both families x types x levels x (1 run, run 2 of 3) x small set sizes
 	for _, fam := range []string{"single", "multi"} {
-		for _, otype := range []string{"CSV", "JSON"} {
-			for _, level := range []string{"Summary", "Detail"} {
+		for _, otype := range types {
+			for _, level := range levels {
 				for _, rR := range [][2]int{{1, 1}, {2, 3}} {
 					sizes := []int{1}
 					if fam == "multi" {
@@ -741,7 +1022,30 @@ func saveCases(c *Ctx, nm *namer, r *Rng) {
 			}
 		}
 	}
-	for i := 0; i < c.N(12, 160); i++ {
+	// systematic: ALL R runs of one scenario through ONE Saver into ONE directory, R in {2, 3, 5}; both families,
+	// types and levels; clean and adversarial names (the witness names of suiteNaming); set sizes vary between the runs
+	multiNames := append([]string{"Saved X", "Kirkpatrick - Black Box"}, witnessNames...)
+	i := 0
+	for _, R := range []int{2, 3, 5} {
+		for _, fam := range []string{"single", "multi"} {
+			for _, otype := range types {
+				for _, level := range levels {
+					picks := c.N(1, 4)
+					for k := 0; k < picks; k++ {
+						name := multiNames[i%len(multiNames)]
+						i++
+						rig := rigs[r.Intn(len(rigs))]
+						sc := mkRuns(rig, fam, otype, level, name, allRuns(R), R, func(int) int { return []int{0, 1, 1, 2, 3, 6}[r.Intn(6)] })
+						if !fsCanCarry(nm, sc) {
+							continue
+						}
+						oneSaveCase(c, nm, rig, sc, fewReps, isCleanName(name))
+					}
+				}
+			}
+		}
+	}
+	for i := 0; i < c.N(16, 200); i++ {
 		rig := rigs[r.Intn(len(rigs))]
 		rr, R := pickRuns(r)
 		fam := []string{"single", "multi", "multi"}[r.Intn(3)]
@@ -749,19 +1053,36 @@ func saveCases(c *Ctx, nm *namer, r *Rng) {
 		if r.Chance(0.5) {
 			n = r.Intn(20)
 		}
-		clean := r.Chance(0.8)
+		clean := r.Chance(0.6)
 		name := cleanName(r)
 		if !clean {
 			name = advString(r)
-			if strings.TrimSpace(name) == "" || isCleanName(name) || strings.ContainsAny(name, "\x00") {
-				continue
+			if r.Chance(0.15) {
+				name = witnessNames[r.Intn(len(witnessNames))]
 			}
-			// a '/' left in a file name by the naming functions would make the Saver write elsewhere: keep the harness inside its directory
-			if strings.Contains(name, "..") {
+			if strings.TrimSpace(name) == "" || isCleanName(name) {
 				continue
 			}
 		}
-		oneSaveCase(c, nm, rig, mk(rig, fam, []string{"CSV", "JSON"}[r.Intn(2)], []string{"Summary", "Detail"}[r.Intn(2)], name, rr, R, n), c.N(6, 12), clean)
+		otype, level := types[r.Intn(2)], levels[r.Intn(2)]
+		var sc saveCase
+		if r.Chance(0.35) {
+			// several runs (all of them, or a few of many) through the one Saver
+			R = []int{2, 3, 5, 11, 12}[r.Intn(5)]
+			rs := allRuns(R)
+			if R > 5 {
+				rs = uniqInts(1, 1+r.Intn(R), R-1, R)
+				sort.Ints(rs)
+			}
+			sc = mkRuns(rig, fam, otype, level, name, rs, R, func(int) int { return r.Intn(1 + n%8) })
+		} else {
+			sc = mk(rig, fam, otype, level, name, rr, R, n)
+		}
+		if !fsCanCarry(nm, sc) {
+			c.Stat("adv save: name skipped, the filesystem cannot carry it (NUL byte or a file name over 255 bytes)")
+			continue
+		}
+		oneSaveCase(c, nm, rig, sc, c.N(6, 12), clean)
 	}
 }
 
@@ -879,7 +1200,36 @@ func (fr *finishRecorder) ObserveEvent(event observer.Event) {
 
 // savedRunChild: `harness saved-run-child -out DIR <case.json>`; builds the scenario from the TOML text
 // with crem's own interpreters (as cmd/cremexplorer/bootstrap does) and runs it.
+// childLifeline makes a child process of the harness unable to outlive its purpose: it ends itself as soon as the
+// process that started it is gone (a harness killed by the check's own timeout would otherwise leave a child that
+// spins in crem's limit-seeking loop running for ever) and, whatever happens, after `limit`.  crem's loops are
+// preemptible, so the timers fire even while every run goroutine spins.
+func childLifeline(limit time.Duration) {
+	parent := os.Getppid()
+	go func() {
+		deadline := time.Now().Add(limit)
+		for {
+			time.Sleep(500 * time.Millisecond)
+			if os.Getppid() != parent {
+				os.Exit(46)
+			}
+			if time.Now().After(deadline) {
+				os.Exit(45)
+			}
+		}
+	}()
+}
+
+// killGroup ends a child started with Setpgid together with anything it started.
+func killGroup(cmd *exec.Cmd) {
+	if cmd.Process != nil {
+		syscall.Kill(-cmd.Process.Pid, syscall.SIGKILL)
+		cmd.Process.Kill()
+	}
+}
+
 func savedRunChild(c *Ctx) {
+	childLifeline(150 * time.Second)
 	if len(c.Args) != 1 {
 		fmt.Fprintln(os.Stderr, "saved-run-child: case file expected")
 		os.Exit(42)
@@ -936,11 +1286,57 @@ type runConfig struct {
 	fam, annealer, otype, level, name, ds string
 	R, iters                              int
 	conc                                  int // MaximumConcurrentRunNumber (0 = leave crem's default, 1)
+	// a limit on one decision variable: [Model.Parameters] Maximum<variable> = limit
+	limOn  bool
+	limVar int
+	limit  float64
+	// keys left out of [Scenario]: crem's defaults apply (OutputType -> CSV, OutputLevel -> Summary); otype / level
+	// hold the EFFECTIVE values
+	omitType, omitLevel bool
+	// where the results go: pathGiven = an absolute OutputPath; pathOmitted = no OutputPath key (the configuration's
+	// default, the working directory "."); pathEmpty = OutputPath = "" (the Saver's default, `solutions` under the
+	// working directory); pathRelative = a nested relative path that does not exist yet.  The child always runs in a
+	// scratch working directory of its own.
+	pathMode int
+	reps     int // executions of this configuration (0 = the tier's default)
 }
 
-func (rc runConfig) toml(outDir string) string {
+const (
+	pathGiven = iota
+	pathOmitted
+	pathEmpty
+	pathRelative
+)
+
+const relativeOutputPath = "results of/the run"
+
+func savedTomlFloat(v float64) string {
+	t := strconv.FormatFloat(v, 'f', -1, 64)
+	if !strings.ContainsAny(t, ".") {
+		t += ".0"
+	}
+	return t
+}
+
+// toml renders the scenario file; outDir = the absolute output directory (pathGiven), dsPath = the data source as
+// seen from the child's working directory.
+func (rc runConfig) toml(outDir, dsPath string) string {
 	var sb strings.Builder
-	fmt.Fprintf(&sb, "[Scenario]\nName = %s\nRunNumber = %d\nOutputPath = %s\nOutputType = %q\nOutputLevel = %q\n", tomlString(rc.name), rc.R, tomlString(outDir), rc.otype, rc.level)
+	fmt.Fprintf(&sb, "[Scenario]\nName = %s\nRunNumber = %d\n", tomlString(rc.name), rc.R)
+	switch rc.pathMode {
+	case pathGiven:
+		fmt.Fprintf(&sb, "OutputPath = %s\n", tomlString(outDir))
+	case pathEmpty:
+		sb.WriteString("OutputPath = \"\"\n")
+	case pathRelative:
+		fmt.Fprintf(&sb, "OutputPath = %s\n", tomlString(relativeOutputPath))
+	}
+	if !rc.omitType {
+		fmt.Fprintf(&sb, "OutputType = %q\n", rc.otype)
+	}
+	if !rc.omitLevel {
+		fmt.Fprintf(&sb, "OutputLevel = %q\n", rc.level)
+	}
 	if rc.conc > 0 {
 		fmt.Fprintf(&sb, "MaximumConcurrentRunNumber = %d\n", rc.conc)
 	}
@@ -950,30 +1346,70 @@ func (rc runConfig) toml(outDir string) string {
 		sb.WriteString("DecisionVariable = \"SedimentProduction\"\nOptimisationDirection = \"Minimising\"\n")
 	}
 	fmt.Fprintf(&sb, "StartingTemperature = 10.0\nCoolingFactor = 0.99\nMaximumIterations = %d\n", rc.iters)
-	fmt.Fprintf(&sb, "[Model]\nType = \"CatchmentModel\"\n[Model.Parameters]\nDataSourcePath = %s\n", tomlString(relToCwd(rc.ds)))
+	fmt.Fprintf(&sb, "[Model]\nType = \"CatchmentModel\"\n[Model.Parameters]\nDataSourcePath = %s\n", tomlString(dsPath))
+	if rc.limOn {
+		fmt.Fprintf(&sb, "%s = %s\n", varMaxKey[rc.limVar], savedTomlFloat(rc.limit))
+	}
 	return sb.String()
 }
 
 func (rc runConfig) line() string {
-	return fmt.Sprintf("%s %s %s %s %s %d %d %s conc=%d", rc.fam, rc.annealer, rc.otype, rc.level, pct(rc.name), rc.R, rc.iters, pct(filepath.Base(rc.ds)), rc.conc)
+	l := fmt.Sprintf("%s %s %s %s %s %d %d %s conc=%d", rc.fam, rc.annealer, rc.otype, rc.level, pct(rc.name), rc.R, rc.iters, pct(filepath.Base(rc.ds)), rc.conc)
+	if rc.limOn {
+		l += fmt.Sprintf(" %s=%s", varMaxKey[rc.limVar], savedTomlFloat(rc.limit))
+	}
+	if rc.omitType {
+		l += " OutputType-omitted"
+	}
+	if rc.omitLevel {
+		l += " OutputLevel-omitted"
+	}
+	l += []string{"", " OutputPath-omitted", " OutputPath-empty", " OutputPath-relative"}[rc.pathMode]
+	return l
 }
 
 // executeScenario runs one scenario in a child process; returns the ground truth, the output
 // directory and the first panic line of a dead child ("" = exited normally).
-func executeScenario(c *Ctx, rc runConfig, tag string) (runs []runTruth, dir string, died string, ok bool) {
+// The layout of one execution: <work>/{case.json, record.jsonl, child/ (the child harness's own -out), cwd/ (the
+// child's working directory), out/ (the output directory when an absolute OutputPath is configured)}.
+func executeScenario(c *Ctx, rc runConfig, tag string) (runs []runTruth, work, dir string, died string, ok bool) {
 	work, err := os.MkdirTemp(c.Out, "run")
 	must(err)
-	dir = filepath.Join(work, "out")
+	if abs, e := filepath.Abs(work); e == nil {
+		work = abs
+	}
+	cwd := filepath.Join(work, "cwd")
+	must(os.Mkdir(cwd, 0o755))
+	switch rc.pathMode {
+	case pathGiven:
+		dir = filepath.Join(work, "out")
+	case pathOmitted:
+		dir = cwd
+	case pathEmpty:
+		dir = filepath.Join(cwd, "solutions")
+	case pathRelative:
+		dir = filepath.Join(cwd, filepath.FromSlash(relativeOutputPath))
+	}
 	rec := filepath.Join(work, "record.jsonl")
 	cf := filepath.Join(work, "case.json")
-	b, _ := json.Marshal(childCase{Toml: rc.toml(dir), Record: rec})
+	dsAbs, _ := filepath.Abs(rc.ds)
+	dsPath, e := filepath.Rel(cwd, dsAbs)
+	if e != nil {
+		dsPath = dsAbs
+	}
+	b, _ := json.Marshal(childCase{Toml: rc.toml(dir, dsPath), Record: rec})
 	must(os.WriteFile(cf, b, 0o644))
 	bin := os.Getenv("VERIF_HARNESS")
 	if bin == "" {
 		bin, _ = os.Executable()
 	}
+	if abs, e := filepath.Abs(bin); e == nil {
+		bin = abs
+	}
 	cmd := exec.Command(bin, "saved-run-child", "-out", filepath.Join(work, "child"), cf)
+	cmd.Dir = cwd
 	cmd.Env = append(os.Environ(), "GOMEMLIMIT=2GiB")
+	cmd.SysProcAttr = &syscall.SysProcAttr{Setpgid: true} // its own process group: the watchdog below kills the group
 	var outBuf strings.Builder
 	cmd.Stdout = &outBuf
 	cmd.Stderr = &outBuf
@@ -983,8 +1419,8 @@ func executeScenario(c *Ctx, rc runConfig, tag string) (runs []runTruth, dir str
 	var werr error
 	select {
 	case werr = <-done:
-	case <-time.After(120 * time.Second):
-		cmd.Process.Kill()
+	case <-time.After(60 * time.Second):
+		killGroup(cmd)
 		werr = fmt.Errorf("timeout")
 		<-done
 	}
@@ -1010,7 +1446,13 @@ func executeScenario(c *Ctx, rc runConfig, tag string) (runs []runTruth, dir str
 		}
 		if ee, isExit := werr.(*exec.ExitError); isExit && (ee.ExitCode() == 43 || ee.ExitCode() == 42) {
 			c.Note("scenario not started (" + tag + "): " + clip(text, 300))
-			return nil, dir, died, false
+			return nil, work, dir, died, false
+		}
+		// a limited model panics deliberately ("Attempt limit reached ...") when its random start never meets the limit
+		// within as many draws as there are actions (C19's matter); the runner reports that run as failed and nothing
+		// is saved for it: such an execution says nothing about saving
+		if strings.Contains(text, "Attempt limit reached") {
+			return nil, work, dir, "attempt-limit", false
 		}
 	}
 	// which run number carried which id
@@ -1023,7 +1465,7 @@ func executeScenario(c *Ctx, rc runConfig, tag string) (runs []runTruth, dir str
 		}
 	}
 	sort.SliceStable(runs, func(i, j int) bool { return runs[i].R < runs[j].R })
-	return runs, dir, died, true
+	return runs, work, dir, died, true
 }
 
 func oneSavedConfig(c *Ctx, nm *namer, refs map[string]*Ref, rc runConfig, reps int) {
@@ -1031,13 +1473,32 @@ func oneSavedConfig(c *Ctx, nm *namer, refs map[string]*Ref, rc runConfig, reps 
 	fileSets, setNames := map[string]bool{}, map[string]bool{}
 	var ops []string
 	diedText, finished := "", 0
+	sink := newFailSink(c, "saved-runs")
+	// the `save` line does not hold the whole configuration (limit, omitted keys, concurrency): it goes along as a comment
+	sink.context = []string{"# configuration: " + rc.line()}
 	for rep := 0; rep < reps; rep++ {
-		runs, dir, died, ok := executeScenario(c, rc, rc.line())
+		runs, work, dir, died, ok := executeScenario(c, rc, rc.line())
 		if !ok {
+			os.RemoveAll(work)
+			if died == "attempt-limit" {
+				c.Stat("saved-runs: BOUNDARY execution left out, the limited model's random start gave up (Attempt limit reached)")
+				continue
+			}
 			c.Stat("saved-runs: scenario not started")
 			return
 		}
-		sc := saveCase{fam: rc.fam, otype: rc.otype, level: rc.level, name: rc.name, R: rc.R, runs: runs}
+		if strings.Contains(died, "timeout") {
+			// a scenario that does not come back is not executed again and again
+			// BOUNDARY, not a violation of the saver: a run that does not come back never reaches its FinishedAnnealing
+			// event.  Under a limit crem's Randomize() can spin when every remaining toggle stays valid (DESIGN.md 10.7,
+			// C19's D18 matter), and the Saver is never asked to save anything.  Counted and noted; the configuration is
+			// not executed again.
+			os.RemoveAll(work)
+			c.Stat("saved-runs: BOUNDARY execution left out, the scenario did not finish within 60 s (child process group killed)")
+			c.Note(fmt.Sprintf("BOUNDARY saved-runs: configuration [%s] did not finish within 60 s (%d finish events were recorded); left out", rc.line(), len(runs)))
+			return
+		}
+		sc := saveCase{fam: rc.fam, otype: rc.otype, level: rc.level, name: rc.name, R: rc.R, runs: runs, limOn: rc.limOn, limVar: rc.limVar, limit: rc.limit}
 		if died == "" {
 			seenRuns := map[int]bool{}
 			for _, rt := range runs {
@@ -1048,7 +1509,23 @@ func oneSavedConfig(c *Ctx, nm *namer, refs map[string]*Ref, rc runConfig, reps 
 					fmt.Sprintf("%s: %d runs configured, finish events of runs %v", rc.line(), rc.R, runs), nil)
 			}
 		}
-		o := examineSaved(c, nm, ref, sc, dir, died, true)
+		o := examineSaved(c, nm, ref, sc, dir, died, sink)
+		// nothing is written beside the output directory: the child's working directory holds the output directory
+		// (or is it), the work directory holds what the harness put there
+		var strays []string
+		switch rc.pathMode {
+		case pathGiven:
+			strays = entriesBeside(filepath.Join(work, "cwd"))
+		case pathEmpty:
+			strays = entriesBeside(filepath.Join(work, "cwd"), "solutions")
+		case pathRelative:
+			strays = entriesBeside(filepath.Join(work, "cwd"), strings.Split(relativeOutputPath, "/")[0])
+		}
+		strays = append(strays, entriesBeside(work, "cwd", "out", "child", "case.json", "record.jsonl")...)
+		if len(strays) > 0 && died == "" {
+			sink.fail("C12: the summaries (and detail files) are written into the configured output directory", "saved:file-outside-directory",
+				fmt.Sprintf("configuration [%s]: files beside the output directory: %q", rc.line(), strays), []string{o.op})
+		}
 		c.Op(o.op, o.res)
 		c.Nontrivial(o.op)
 		ops = append(ops, o.op)
@@ -1060,11 +1537,22 @@ func oneSavedConfig(c *Ctx, nm *namer, refs map[string]*Ref, rc runConfig, reps 
 			setNames[strings.Join(o.setNames, ",")] = true
 		}
 		for _, rt := range runs {
-			c.Stat(fmt.Sprintf("saved-runs: family=%s type=%s level=%s runs=%d concurrent=%v setsize=%s", rc.fam, rc.otype, rc.level, rc.R, rc.conc > 1, nbucket(len(rt.Members))))
+			c.Stat(fmt.Sprintf("saved-runs: family=%s type=%s level=%s runs=%s concurrent=%v setsize=%s", rc.fam, rc.otype, rc.level, nbucket(rc.R), rc.conc > 1, nbucket(len(rt.Members))))
 		}
-		os.RemoveAll(filepath.Dir(dir))
+		os.RemoveAll(work)
+	}
+	c.Stat("saved-runs: scenario name " + map[bool]string{true: "clean", false: "adversarial"}[isCleanName(rc.name)])
+	if rc.limOn {
+		c.Stat(fmt.Sprintf("saved-runs: limited scenario variable=%s family=%s", varNames[rc.limVar], rc.fam))
+	}
+	if rc.omitType || rc.omitLevel || rc.pathMode != pathGiven {
+		c.Stat(fmt.Sprintf("saved-runs: defaults exercised OutputType-omitted=%v OutputLevel-omitted=%v OutputPath=%s", rc.omitType, rc.omitLevel,
+			[]string{"given", "omitted (working directory)", "empty (solutions)", "relative, nested"}[rc.pathMode]))
 	}
 	c.Stat(fmt.Sprintf("saved-runs: distinct summary file-name sets over %d repetitions of one configuration = %d", reps, len(fileSets)))
+	if len(ops) == 0 {
+		return
+	}
 	if len(fileSets) > 1 || len(setNames) > 1 {
 		c.Fail("C12: file names and the set name inside the file are a deterministic function of the scenario name, run number and output type", sigMapOrder,
 			fmt.Sprintf("configuration [%s] executed %d times: summary file names (per run, comma separated) %q; set names %q", rc.line(), reps, sortedKeys(fileSets), sortedKeys(setNames)), ops[:1])
@@ -1093,9 +1581,11 @@ func suiteSavedRuns(c *Ctx) {
 		c.Fail("correspondence", "saved:no-dataset", "no shipped dataset could be loaded", nil)
 		return
 	}
+	// The list of configurations is generated from the SEED ALONE (c.Rng also depends on the shard): every shard must
+	// build the same list, of which it executes every Shards-th entry.
 	// Fork(): util.go's NewRng(seed) streams of consecutive seeds are the same splitmix sequence shifted by a
 	// draw or two; forking through one mixed output decorrelates the seeds
-	r := c.Rng.Fork().Fork()
+	r := NewRng(c.Seed ^ 0x5A7ED0C12).Fork().Fork()
 	var cfgs []runConfig
 	if c.Replay != "" {
 		for _, l := range readLines(c.Replay) {
@@ -1106,6 +1596,8 @@ func suiteSavedRuns(c *Ctx) {
 			}
 		}
 	} else {
+		// first, in every tier: the audit's witnesses, multi-run adversarial names, limited scenarios, omitted keys
+		cfgs = append(cfgs, savedExtraConfigs(c, r, dss, refs)...)
 		names := []string{"Saved", "Kirkpatrick - Black Box", "Test 7 é"}
 		i := 0
 		for pass := 0; pass < c.N(1, 3); pass++ {
@@ -1148,8 +1640,111 @@ func suiteSavedRuns(c *Ctx) {
 		if i%c.Shards != c.Shard {
 			continue
 		}
-		oneSavedConfig(c, nm, refs, rc, reps)
+		n := reps
+		if rc.reps > 0 {
+			n = rc.reps
+		}
+		oneSavedConfig(c, nm, refs, rc, n)
 	}
+}
+
+// savedLimit places a limit on variable v strictly between the model's two extremes: the as-is state (no action
+// active) and the all-active state.  C03's premise is that the limit is attainable at the optimiser's starting
+// extreme: under a cost limit that is the as-is state (cost 0 <= limit), under a pollutant limit the ALL-ACTIVE state
+// (all-active value <= limit).  The limit is kept below the other extreme so that it binds (otherwise the model's
+// random start gives up with its deliberate "Attempt limit reached" panic), and a third of a grid unit off the
+// variable's reporting grid, so that no attainable value ties with it.
+func savedLimit(ref *Ref, v int, frac float64) (float64, bool) {
+	n := ref.cm.n()
+	all := make([]bool, n)
+	for i := range all {
+		all[i] = true
+	}
+	asIs, allActive := ref.at(make([]bool, n)).totals[v], ref.at(all).totals[v]
+	lo, hi := allActive, asIs // pollutants: actions lower the load
+	if v >= 4 {
+		lo, hi = asIs, allActive // costs: actions cost money
+	}
+	u := math.Pow10(-varPrec[v])
+	if hi-lo < 20*u {
+		return 0, false
+	}
+	lim := lo + frac*(hi-lo)
+	lim = math.Round((math.Floor(lim/u)*u+0.3*u)*1e6) / 1e6
+	return lim, lim > lo && lim < hi
+}
+
+// savedExtraConfigs: scenarios beyond the systematic grid of suiteSavedRuns.
+func savedExtraConfigs(c *Ctx, r *Rng, dss []string, refs map[string]*Ref) []runConfig {
+	var out []runConfig
+	add := func(rc runConfig) {
+		if rc.fam == "single" {
+			rc.annealer = "Kirkpatrick"
+		} else if rc.annealer == "" {
+			rc.annealer = []string{"Suppapitnarm", "AveragedSuppapitnarm"}[len(out)%2]
+		}
+		if rc.ds == "" {
+			rc.ds = dss[len(out)%len(dss)]
+		}
+		out = append(out, rc)
+	}
+	// (a) the audit's witnesses end to end: three runs of `Best Solution` (each must leave its own summary), both
+	// families; `trial (1/1)`; `As-Is baseline`; names with blanks and with a digit/digit run of their own
+	add(runConfig{fam: "multi", otype: "CSV", level: "Summary", name: "Best Solution", R: 3, iters: 80, conc: 3})
+	add(runConfig{fam: "single", otype: "JSON", level: "Detail", name: "Best Solution", R: 3, iters: 40})
+	add(runConfig{fam: "single", otype: "CSV", level: "Summary", name: "trial (1/1)", R: 1, iters: 40})
+	add(runConfig{fam: "multi", otype: "JSON", level: "Summary", name: "As-Is baseline", R: 1, iters: 120})
+	add(runConfig{fam: "multi", otype: "CSV", level: "Detail", name: "Run 3/4 test", R: 2, iters: 60, conc: 2})
+	add(runConfig{fam: "single", otype: "JSON", level: "Summary", name: "  two  blanks and a trailing one ", R: 2, iters: 20})
+	if c.Thorough() {
+		for i, name := range witnessNames {
+			fam := []string{"multi", "single"}[i%2]
+			add(runConfig{fam: fam, otype: []string{"JSON", "CSV"}[(i/2)%2], level: []string{"Summary", "Detail"}[(i/3)%2], name: name, R: 1 + i%4, iters: 60, conc: (i % 2) * (1 + i%4)})
+		}
+		for i := 0; i < 6; i++ {
+			name := advString(r)
+			if strings.TrimSpace(name) == "" || strings.ContainsRune(name, 0) || len(name) > 40 {
+				continue
+			}
+			add(runConfig{fam: []string{"multi", "single"}[i%2], otype: []string{"JSON", "CSV"}[r.Intn(2)], level: []string{"Summary", "Detail"}[r.Intn(2)], name: name, R: 1 + r.Intn(3), iters: 60})
+		}
+		// two-digit run counts: (r/10), (r/11) - and, with few iterations and repetitions, three digits
+		add(runConfig{fam: "multi", otype: "CSV", level: "Summary", name: "Ten runs", R: 10, iters: 30, conc: 4, reps: 4})
+		add(runConfig{fam: "single", otype: "JSON", level: "Summary", name: "Best Solution", R: 11, iters: 10, conc: 11, reps: 4})
+		add(runConfig{fam: "multi", otype: "JSON", level: "Detail", name: "Eleven 1/11", R: 11, iters: 30, reps: 4})
+		add(runConfig{fam: "single", otype: "CSV", level: "Summary", name: "Hundred", R: 100, iters: 5, conc: 8, reps: 2})
+		add(runConfig{fam: "multi", otype: "JSON", level: "Summary", name: "Hundred Solution (1/100)", R: 100, iters: 20, conc: 8, reps: 2})
+	}
+	// (b) limited scenarios (C03, output side): each of the six variables, both families
+	for pass := 0; pass < c.N(1, 3); pass++ {
+		for v := 0; v < 6; v++ {
+			for fi, fam := range []string{"single", "multi"} {
+				ds := dss[(v+fi+pass)%len(dss)]
+				// the limit sits in the half of the range next to the starting extreme: it is attainable there (C03's premise)
+				// and certain to bind long before the model's limit seeking has used its attempt budget (= number of actions)
+				frac := []float64{0.4, 0.3, 0.5}[(v+fi+pass)%3]
+				if pass > 0 {
+					frac = 0.2 + 0.3*r.Float()
+				}
+				lim, ok := savedLimit(refs[ds], v, frac)
+				if !ok {
+					c.Stat("saved-runs: no limit placed (the variable's extremes are too close) variable=" + varNames[v])
+					continue
+				}
+				add(runConfig{fam: fam, otype: []string{"CSV", "JSON"}[(v+fi+pass)%2], level: []string{"Summary", "Summary", "Detail"}[(v+2*fi+pass)%3], name: "Limited " + varShort[v], ds: ds,
+					R: 2, iters: []int{150, 60, 300}[(v+pass)%3], conc: 2 * (v % 2), limOn: true, limVar: v, limit: lim})
+			}
+		}
+	}
+	// (c) keys left out of [Scenario]: OutputType (-> CSV), OutputLevel (-> Summary), OutputPath (-> the working
+	// directory; OutputPath = "" -> `solutions` below it); a relative nested OutputPath that does not exist yet
+	add(runConfig{fam: "multi", otype: "CSV", level: "Detail", name: "No type", R: 2, iters: 60, omitType: true})
+	add(runConfig{fam: "single", otype: "JSON", level: "Summary", name: "No level", R: 2, iters: 40, omitLevel: true})
+	add(runConfig{fam: "single", otype: "CSV", level: "Summary", name: "No path", R: 2, iters: 40, pathMode: pathOmitted})
+	add(runConfig{fam: "multi", otype: "JSON", level: "Detail", name: "Empty path", R: 2, iters: 60, pathMode: pathEmpty})
+	add(runConfig{fam: "multi", otype: "CSV", level: "Summary", name: "Nothing given", R: 1, iters: 60, omitType: true, omitLevel: true, pathMode: pathOmitted})
+	add(runConfig{fam: "single", otype: "CSV", level: "Detail", name: "Relative path", R: 1, iters: 40, pathMode: pathRelative})
+	return out
 }
 
 // configOfSaveLine recovers the scenario configuration of a recorded `save` line (replay = run it again).
